@@ -489,6 +489,51 @@ theorem solve_best_post (nrm : Vec → F) (s : SolveIn) (x : Vec) (hA : s.A.leng
           cases e <;> simp at h
           exact absurd rfl (hne _)
 
+/-- Clause "for linear problems the result does not depend on the initial guess": two runs of the constrained solve
+that start from vectors `lhs`, `lhs'` which agree on the constrained entries (same prescribed values, different initial
+guess on the free entries) and end with the same free-row residual (in particular: both exact) return the same
+vector, provided the reduced matrix `A[I,J]` is injective. -/
+theorem solve_indep_lhs0 (J I : List Bool) (A : Mat) (rhs lhs lhs' y y' : Vec)
+    (hI : I.length = A.length) (hr : rhs.length = A.length) (hag : agreeOff J lhs lhs')
+    (hres : sel I (vsub rhs (matVec A (scatterAdd J y lhs))) = sel I (vsub rhs (matVec A (scatterAdd J y' lhs'))))
+    (hinj : ∀ z z' : Vec, z.length = count J → z'.length = count J →
+      matVec (subMat I J A) z = matVec (subMat I J A) z' → z = z') :
+    scatterAdd J y lhs = scatterAdd J y' lhs' := by
+  obtain ⟨hJ1, hJ2⟩ := agreeOff_length J lhs lhs' hag
+  have a1 : agreeOff J (scatterAdd J y lhs) lhs' := agreeOff_trans J _ _ _ (agreeOff_scatterAdd J y lhs hJ1) hag
+  have a2 : agreeOff J (scatterAdd J y' lhs') lhs' := agreeOff_scatterAdd J y' lhs' hJ2
+  have e1 := eq_scatterAdd_of_agreeOff J _ _ a1
+  have e2 := eq_scatterAdd_of_agreeOff J _ _ a2
+  generalize scatterAdd J y lhs = x at *
+  generalize scatterAdd J y' lhs' = x' at *
+  have lx := (agreeOff_length J x lhs' a1).1
+  have lx' := (agreeOff_length J x' lhs' a2).1
+  have lz : (vsub (sel J x) (sel J lhs')).length = count J := by
+    rw [vsub_length _ _ (by rw [sel_length_count J x lx, sel_length_count J lhs' hJ2]), sel_length_count J x lx]
+  have lz' : (vsub (sel J x') (sel J lhs')).length = count J := by
+    rw [vsub_length _ _ (by rw [sel_length_count J x' lx', sel_length_count J lhs' hJ2]), sel_length_count J x' lx']
+  have r1 := residual_reduced J (vsub (sel J x) (sel J lhs')) lhs' hJ2 I A rhs hI hr
+  have r2 := residual_reduced J (vsub (sel J x') (sel J lhs')) lhs' hJ2 I A rhs hI hr
+  rw [← e1] at r1
+  rw [← e2] at r2
+  rw [r1, r2] at hres
+  have lr0 : (sel I (vsub rhs (matVec A lhs'))).length = count I := by
+    apply sel_length_count
+    rw [vsub_length _ _ (by simp [matVec, hr])]; omega
+  have lM : ∀ z, (matVec (subMat I J A) z).length = count I := by
+    intro z; simp [matVec, subMat, sel_length_count I A hI]
+  have hm := vsub_left_cancel _ _ _ (by rw [lr0, lM]) (by rw [lr0, lM]) hres
+  have hz := hinj _ _ lz lz' hm
+  rw [e1, e2, hz]
+
+example : ∀ z z' : Vec, z.length = count [true, false] → z'.length = count [true, false] →
+    matVec (subMat [true, false] [true, false] [[2, 1], [1, 3]]) z = matVec (subMat [true, false] [true, false] [[2, 1], [1, 3]]) z' → z = z' := by
+  intro z z' h1 h2 h
+  match z, z', h1, h2 with
+  | [a], [b], _, _ =>
+    simp [matVec, subMat, sel, dot] at h
+    congr 1; grind
+
 /-- `Matrix.solve_leniently` returns either a vector that passed `solve`, or the patched `.best`: in both cases the
 constrained entries are exactly the prescribed values. -/
 theorem solve_leniently_constrained (nrm : Vec → F) (s : SolveIn) (x : Vec) (hA : s.A.length = s.nrows)
@@ -517,7 +562,7 @@ matrix) sailed through `rhsnorm <= atol` and `resnorm > atol > 0`, and the solve
 theorem solver_nan_old_counterexample :
     solverOld (fun _ => nan) [[2, 1], [1, 3]] 2 [1, 1] (fin (1/100)) (fin 0) (.vec [fin 0, fin 0]) = .ok [0, 0] ∧
     solverM (fun _ => nan) [[2, 1], [1, 3]] 2 [1, 1] (fin (1/100)) (fin 0) (.vec [fin 0, fin 0]) = .error .rhsNonFinite ∧
-    solverM (fun v => if v = [1, 1] then fin 2 else nan) [[2, 1], [1, 3]] 2 [1, 1] (fin (1/100)) (fin 0) (.vec [fin 0, fin 0])
+    solverM (fun v => if v.headD 0 ≤ 1 then fin 2 else nan) [[2, 1], [1, 3]] 2 [1, 1] (fin (1/100)) (fin 0) (.vec [fin (-1), fin 0])
       = .error .resNonFinite := by
   decide +kernel
 
@@ -531,9 +576,9 @@ theorem legacy_solve_post (tol : F) (mi : Int) (ma : Option Int) (evs : List Ev)
       r.isNan = false ∧ le r tol = true ∧ evs[k]? = some (.yield r) ∧ mi ≤ (k : Int) ∧
       (∀ M, ma = some M → (k = 0 ∨ (k : Int) ≤ M)) ∧
       (∀ j, j < k → ∃ rj, evs[j]? = some (.yield rj) ∧ rj.isNan = false ∧ (mi ≤ (j : Int) → le rj tol = false)) := by
-    intro r0 rest he h
+    intro r0 rest he hl
     subst he
-    obtain ⟨_, h2, h3, h4, h5⟩ := loop_post tol mi ma (.yield r0 :: rest) rest 0 r0 k r (by simp) (by simp) h
+    obtain ⟨_, h2, h3, h4, h5⟩ := loop_post tol mi ma (.yield r0 :: rest) rest 0 r0 k r (by simp) (by simp) hl
     refine ⟨(F.le_not_nan h3).1, h3, h2, h4, ?_, ?_⟩
     · intro M hM
       subst hM
@@ -558,7 +603,7 @@ theorem legacy_solve_post (tol : F) (mi : Int) (ma : Option Int) (evs : List Ev)
       | yield r0 =>
         simp at h
         obtain ⟨a, b, c, d, _, f⟩ := key r0 rest rfl h
-        exact ⟨a, b, c, d, by intro M hM; cases hM, f⟩
+        exact ⟨a, b, c, d, (fun M hM => by cases hM), f⟩
   | some M0 =>
     simp only [legacySolve] at h
     by_cases hm : M0 < mi
